@@ -50,6 +50,7 @@ for D in (1, 2, 3):
                       lemmas=WF_lemmas('self', D, dims=[0]) + zlem,
                       ensures=[('sub-view has the inner dimensions of self', ' && '.join(same_dim('ret', k, 'self', k+1) for k in range(D-1))),
                                ('sub-view starts at element (idx, first...) of self', 'ret->base_ == self->base_ + (MUL(idx, self->stride_) - self->offset_)')],
+                      covers=['idx == g_f0', 'idx == g_f0 + g_n0 - 1 && g_n0 > 1'],
                       assigns=['*ret'], mode='uf')
             else:
                 Check('S1_%s%s' % (name, suf), props, 'subarray',
@@ -66,28 +67,30 @@ for D in (1, 2, 3):
               wrapper=W('multi::index first, multi::index last', 'new(ret) CS<%d>(self->sliced_aux_(first, last));' % D),
               cxx={'self': SUB(D), 'ret': SUB(D)}, ghosts=ghosts_fn(D) + [(I64, 'g_p')],
               requires=base_req + zreq + ['INR(first) && INR(last) && first <= last',
-                        'first == last || (g_f0 <= first && last <= g_f0 + g_n0)', '0 <= g_p && g_p < last - first'],
+                        'first == last || (g_f0 <= first && last <= g_f0 + g_n0)', 'INR(g_p)'],
               lemmas=WF_lemmas('self', D, dims=[0]) + zlem + ['LEMMA_DIST(g_f0, g_p, self->stride_)', 'LEMMA_DIST(first, g_p, self->stride_)',
                       'LEMMA_COMM(self->stride_, last - first)', 'LEMMA_MULDIV(g_n0, self->stride_)', 'LEMMA_COMM(g_n0, self->stride_)', 'LEMMA_MULDIV(self->stride_, g_n0)'],
               ensures=[('stride kept, inner dimensions untouched', 'ret->stride_ == self->stride_ && ' + inner_same),
                        ('size is last-first', 'ret->nelems_ == MUL(last - first, ret->stride_) && REM(ret->offset_, ret->stride_) == 0'),
                        ('zero-based stays zero-based', 'IMPLIES(self->offset_ == 0, ret->offset_ == 0)'),
                        ('p-th element of result is element first+p of self',
-                        '%s == %s' % (addr0('ret', first_index('ret') + ' + g_p'), addr0('self', 'first + g_p')))],
+                        'IMPLIES(0 <= g_p && g_p < last - first, %s == %s)' % (addr0('ret', first_index('ret') + ' + g_p'), addr0('self', 'first + g_p')))],
+              covers=['first == last && first == g_f0 + g_n0', 'g_n0 == 0', 'g_n0 == 1 && last == first + 1', 'g_p == last - first - 1 && g_p > 2'],
               assigns=['*ret'], mode='uf')
         # ---------------------------------------------------------------- dropped(n) / taked(n)
         Check('S%d_dropped%s' % (D, suf), props, 'subarray',
               fn_re=CSn(D) + r'::dropped_aux_\(long\) const', params=['ret', 'self', 'n'],
               wrapper=W('multi::index n', 'new(ret) CS<%d>(self->dropped_aux_(n));' % D),
               cxx={'self': SUB(D), 'ret': SUB(D)}, ghosts=ghosts_fn(D) + [(I64, 'g_p')],
-              requires=base_req + zreq + ['0 <= n && n <= g_n0', '0 <= g_p && g_p < g_n0 - n'],
+              requires=base_req + zreq + ['0 <= n && n <= g_n0', 'INR(g_p)'],
               lemmas=WF_lemmas('self', D, dims=[0]) + zlem + ['LEMMA_DIST(g_f0, g_p, self->stride_)', 'LEMMA_DIST(g_f0 + n, g_p, self->stride_)', 'LEMMA_DIST(g_f0, n, self->stride_)',
                       'LEMMA_COMM(self->stride_, g_n0 - n)', 'LEMMA_DISTSUB(g_n0, n, self->stride_)', 'LEMMA_MUL0(self->stride_)'],
               ensures=[('stride kept, inner dimensions untouched', 'ret->stride_ == self->stride_ && ' + inner_same),
                        ('size is size-n', 'ret->nelems_ == MUL(g_n0 - n, ret->stride_) && REM(ret->offset_, ret->stride_) == 0'),
                        ('zero-based stays zero-based', 'IMPLIES(self->offset_ == 0, ret->offset_ == 0)'),
                        ('p-th element of result is element n+p (by position) of self',
-                        '%s == %s' % (addr0('ret', first_index('ret') + ' + g_p'), addr0('self', 'g_f0 + n + g_p')))],
+                        'IMPLIES(0 <= g_p && g_p < g_n0 - n, %s == %s)' % (addr0('ret', first_index('ret') + ' + g_p'), addr0('self', 'g_f0 + n + g_p')))],
+              covers=['n == g_n0', 'g_n0 == 0', 'n == 0 && g_n0 == 1', 'g_p == g_n0 - n - 1 && g_p > 2'],
               assigns=['*ret'], mode='uf')
         Check('S%d_taked%s' % (D, suf), props, 'subarray',
               fn_re=CSn(D) + r'::taked_aux_\(long\) const', params=['ret', 'self', 'n'],
@@ -97,6 +100,7 @@ for D in (1, 2, 3):
               lemmas=WF_lemmas('self', D, dims=[0]) + zlem + ['LEMMA_COMM(self->stride_, n)'],
               ensures=[('stride, offset, inner dimensions and first element kept', 'ret->stride_ == self->stride_ && ret->offset_ == self->offset_ && ret->base_ == self->base_ && ' + inner_same),
                        ('size is n', 'ret->nelems_ == MUL(n, ret->stride_)')],
+              covers=['n == g_n0', 'n == 0', 'g_n0 == 0'],
               assigns=['*ret'], mode='uf')
     # -------------------------------------------------------------------- strided(s)   (zero-based; s divides the size)
     Check('S%d_strided' % D, ['C01', 'C20'], 'subarray',
@@ -104,12 +108,13 @@ for D in (1, 2, 3):
           wrapper=('void', ('CS<%d>* ret' if D > 1 else 'MS<%d>* ret') % D + ', CS<%d> const* self, multi::index s' % D,
                    'new(ret) %s<%d>(self->strided_aux_(s));' % ('CS' if D > 1 else 'MS', D)),
           cxx={'self': SUB(D), 'ret': SUB(D) if D > 1 else MSUB(1)}, ghosts=ghosts_fn(D) + [(I64, 'g_p')],
-          requires=base_req + [' && '.join('g_f%d == 0' % k for k in range(D)), '0 < s && INR(s) && REM(g_n0, s) == 0', '0 <= g_p && g_p < DIV(g_n0, s)'],
+          requires=base_req + [' && '.join('g_f%d == 0' % k for k in range(D)), '0 < s && INR(s) && REM(g_n0, s) == 0', 'INR(g_p)'],
           lemmas=WF_lemmas('self', D, dims=[0]) + ['LEMMA_MUL0(self->stride_)', 'LEMMA_COMM(self->stride_, s)', 'LEMMA_DIVEXACT(g_n0, s)',
                   'LEMMA_ASSOC(DIV(g_n0, s), s, self->stride_)', 'LEMMA_ASSOC(g_p, s, self->stride_)'],
           ensures=[('stride multiplied, inner dimensions untouched', 'ret->stride_ == MUL(s, self->stride_) && ret->offset_ == 0 && ' + inner_same),
                    ('size is size/s', 'ret->nelems_ == MUL(DIV(g_n0, s), ret->stride_)'),
-                   ('p-th element of result is element p*s of self', '%s == %s' % (addr0('ret', 'g_p'), addr0('self', 'MUL(g_p, s)')))],
+                   ('p-th element of result is element p*s of self', 'IMPLIES(0 <= g_p && g_p < DIV(g_n0, s), %s == %s)' % (addr0('ret', 'g_p'), addr0('self', 'MUL(g_p, s)')))],
+          covers=['g_n0 == 0', 's == 1', 's == g_n0 && s > 1', 'g_p > 0 && g_p < DIV(g_n0, s)'],
           assigns=['*ret'], mode='uf')
     # -------------------------------------------------------------------- permutations of dimensions (bit-precise)
     perms = {'rotated': list(range(1, D)) + [0], 'unrotated': [D-1] + list(range(D-1)), 'reversed': list(range(D-1, -1, -1))}
@@ -131,7 +136,7 @@ for D in (1, 2, 3):
               fn_re=CSn(D) + r'::partitioned_aux_\(long\) const', params=['ret', 'self', 'n'],
               wrapper=('void', 'MS<%d>* ret, CS<%d> const* self, multi::index n' % (D+1, D), 'new(ret) MS<%d>(self->partitioned_aux_(n));' % (D+1)),
               cxx={'self': SUB(D), 'ret': MSUB(D+1)}, ghosts=ghosts_fn(D) + [(I64, 'g_a'), (I64, 'g_r')],
-              requires=base_req + zreq + ['0 < n && INR(n) && REM(g_n0, n) == 0', '0 <= g_a && g_a < n && 0 <= g_r && g_r < %s' % Q],
+              requires=base_req + zreq + ['0 < n && INR(n) && REM(g_n0, n) == 0', 'INR(g_a) && INR(g_r)'],
               lemmas=WF_lemmas('self', D, dims=[0]) + zlem + ['LEMMA_DIVEXACT(g_n0, n)', 'LEMMA_SWAP(%s, n, self->stride_)' % Q,
                       'LEMMA_MULREM(MUL(%s, self->stride_), n)' % Q, 'LEMMA_MULDIV(MUL(%s, self->stride_), n)' % Q, 'LEMMA_COMM(n, MUL(%s, self->stride_))' % Q,
                       'LEMMA_DIST(g_f0 + g_r, MUL(g_a, %s), self->stride_)' % Q, 'LEMMA_ASSOC(g_a, %s, self->stride_)' % Q, 'LEMMA_MUL0(n)',
@@ -140,8 +145,9 @@ for D in (1, 2, 3):
                        ('second dimension: size/n elements of the old leading dimension', 'ret->sub_.stride_ == self->stride_ && ret->sub_.offset_ == self->offset_ && ret->sub_.nelems_ == MUL(%s, self->stride_)' % Q),
                        ('inner dimensions untouched, same first element', 'ret->base_ == self->base_ && ' + (' && '.join(same_dim('ret', k+1, 'self', k) for k in range(1, D)) or '1')),
                        ('element (a, r) of the result is element a*(size/n)+r (by position) of self',
-                        '(ret->base_ + (MUL(g_a, ret->stride_) - ret->offset_) + (MUL(g_f0 + g_r, ret->sub_.stride_) - ret->sub_.offset_)) == %s'
-                        % addr0('self', 'g_f0 + MUL(g_a, %s) + g_r' % Q))],
+                        'IMPLIES(0 <= g_a && g_a < n && 0 <= g_r && g_r < %s, (ret->base_ + (MUL(g_a, ret->stride_) - ret->offset_) + (MUL(g_f0 + g_r, ret->sub_.stride_) - ret->sub_.offset_)) == %s)'
+                        % (Q, addr0('self', 'g_f0 + MUL(g_a, %s) + g_r' % Q)))],
+              covers=['g_n0 == 0', 'n == 1 && g_n0 > 1', 'n == g_n0 && n > 1', 'g_a > 0 && g_a < n && g_r > 0 && g_r < %s' % Q],
               assigns=['*ret'], mode='uf')
     # -------------------------------------------------------------------- broadcasted(): D -> D+1, stride 0
     Check('S%d_broadcasted' % D, ['C01'], 'subarray',
@@ -163,7 +169,7 @@ for D in (2, 3):
           wrapper=('void', 'CS<%d>* ret, CS<%d> const* self' % (D-1, D), 'new(ret) CS<%d>(self->flatted());' % (D-1)),
           cxx={'self': SUB(D), 'ret': SUB(D-1)}, ghosts=ghosts_fn(D) + [(I64, 'g_p')],
           requires=[WF('self', D), 'self->base_ != 0', ' && '.join('g_f%d == 0' % k for k in range(D)), 'g_n1 > 0',
-                    'g_n0 <= 1 || self->stride_ == self->sub_.nelems_', '0 <= g_p && g_p < MUL(g_n0, g_n1)'],
+                    'g_n0 <= 1 || self->stride_ == self->sub_.nelems_', 'INR(g_p)'],
           lemmas=WF_lemmas('self', D, dims=[0, 1]) + ['LEMMA_MUL0(self->stride_)', 'LEMMA_MUL0(self->sub_.stride_)',
                   'LEMMA_SWAP(g_n1, self->sub_.stride_, g_n0)', 'LEMMA_COMM(g_n1, g_n0)', 'LEMMA_DIVMOD(g_p, g_n1)', 'LEMMA_REMRANGE(g_p, g_n1)',
                   'LEMMA_DIST(MUL(%s, g_n1), %s, self->sub_.stride_)' % (A, B), 'LEMMA_ASSOC(%s, g_n1, self->sub_.stride_)' % A,
@@ -172,7 +178,8 @@ for D in (2, 3):
                     'ret->stride_ == self->sub_.stride_ && ret->offset_ == 0 && ret->nelems_ == MUL(MUL(g_n0, g_n1), ret->stride_)'),
                    ('inner dimensions untouched, same first element', 'ret->base_ == self->base_ && ' + (' && '.join(same_dim('ret', k-1, 'self', k) for k in range(2, D)) or '1')),
                    ('element p of the result is element (p / n1, p % n1) of self',
-                    '%s == (self->base_ + (MUL(%s, self->stride_) - self->offset_) + (MUL(%s, self->sub_.stride_) - self->sub_.offset_))' % (addr0('ret', 'g_p'), A, B))],
+                    'IMPLIES(0 <= g_p && g_p < MUL(g_n0, g_n1), %s == (self->base_ + (MUL(%s, self->stride_) - self->offset_) + (MUL(%s, self->sub_.stride_) - self->sub_.offset_)))' % (addr0('ret', 'g_p'), A, B))],
+          covers=['g_n0 == 0', 'g_n0 == 1 && self->stride_ != self->sub_.nelems_', 'g_n0 > 1 && g_p > g_n1 && g_p < MUL(g_n0, g_n1)'],
           assigns=['*ret'], mode='uf')
 
 # every view-forming operation hands the 0-dimensional leaf layout on unchanged (its nelems_ == 1 is what num_elements() multiplies up)
